@@ -46,9 +46,11 @@ PROPS = {
                       'built_in_comparison.rs::bip_greater_than', 'built_in_comparison.rs::bip_greater_than_or_equal',
                       'substitution_set.rs::get_constant', 'substitution_set.rs::get_ground_term'],
         'oracles': {'*': 'c14_compare'},
+        'bounded': [('c14_compare', 'integer/float arms (the exec cast `i as f64` is unspecified in Verus): 2815 operand pairs over extreme integers, -0.0, fractions, atoms, non-constants and variable chains')],
         'not_covered': [
             "'at most once' is the more_solutions flag of next_solution_bip (RefCell solver node): not covered",
-            'float and int/float arms: Verus leaves exec f64 comparison unspecified; decided by the Kani harnesses of the thorough tier',
+            'float/float arms are proved under the axiom that IEEE comparison is a function of its operands (obeys_eq_spec / obeys_partial_cmp_spec for f64)',
+            'integer/float arms: the exec cast `i as f64` is unspecified in Verus and a Kani harness through bip_* does not finish (drop glue of the recursive enum: > 30 min); they are covered by a BOUNDED enumeration only (never counted as proved)',
             'infix parsing of the operators (string level)',
         ],
     },
@@ -104,6 +106,20 @@ PROPS['C10'] = {
     ],
 }
 
+PROPS['C12'] = {
+    'units': [],
+    'functions': [],
+    'oracles': {},
+    'bounded': [('c12_arith', 'evaluate_add / subtract / multiply / divide against the left-to-right fold: all 1- and 2-argument lists over a pool of 20 extreme integers and floats, '
+                              '600 seeded lists of 3-4 arguments per operation (literal, through bound variables, through variable chains), and 2-operand infix forms through parse_term')],
+    'kani': {'quick': [], 'thorough': []},
+    'not_covered': [
+        'NOT PROVED: this property is decided by a bounded enumeration only. The functions use iterator closures and f64 arithmetic (outside Verus: exec float operations are unspecified there), '
+        'and the Kani harnesses on the real functions (kani/src/arith.rs, one per type shape) exhaust memory in CBMC (propositional reduction > 33 GB for two integer arguments), so they are not registered',
+        "'the value is then unified with the other operand' is C13 (proved)",
+    ],
+}
+
 PROPS['C18'] = {
     'units': ['parsers'],
     'functions': ['infix.rs::check_infix', 'infix.rs::check_arithmetic_infix', 's_linked_list.rs::equal_escape',
@@ -150,6 +166,7 @@ PROPS['C22'] = {
 
 LEVEL = {p: 'proof' for p in PROPS}
 LEVEL['C22'] = 'proof'
+LEVEL['C12'] = 'exploration'
 
 # trusted base items, by tag found in generated files (scan_assumptions)
 TRUSTED_TEXT = {
